@@ -31,6 +31,17 @@ def run(ctx):
             ctx.tag(("bitid", c, nm), ["dens_off_" + nm])
             if not np.array_equal(base, e2, equal_nan=True):
                 ctx.fail("fit_transform:densmap_%s_differs_from_umap" % nm, "max abs difference %g" % np.nanmax(np.abs(base - e2)), dict(desc, **kw))
+    # n_epochs <= 10: the weak-edge pruning threshold uses default_epochs, which densmap=True raises from 500 to 700 (recorded finding)
+    cent = npr.normal(size=(40, 5)) * 5
+    Xc = np.vstack([c_ + npr.normal(size=(npr.randint(3, 12), 5)) * npr.uniform(0.01, 1.0) for c_ in cent]).astype(np.float32)
+    for E in (5, 10):
+        base = umap.UMAP(random_state=1, n_epochs=E).fit_transform(Xc)
+        for kw, nm in ((dict(dens_lambda=0.0), "lambda0"), (dict(dens_frac=0.0), "frac0")):
+            e2 = umap.UMAP(random_state=1, n_epochs=E, densmap=True, **kw).fit_transform(Xc)
+            ctx.tag(("bitid_small_epochs", E, nm), ["dens_off_n_epochs<=10"])
+            if not np.array_equal(base, e2, equal_nan=True):
+                ctx.fail("fit_transform:densmap_off_differs_from_umap:n_epochs<=10", "n_epochs=%d %s: max abs difference %g" % (E, nm, np.nanmax(np.abs(base - e2))),
+                         dict(X=Xc, n_epochs=E, random_state=1, **kw))
     # ---- (b) the flag schedule ----------------------------------------------------------------------------------
     seen = []
     orig = L._nb_optimize_layout_euclidean_single_epoch
